@@ -261,6 +261,9 @@ func (m IPMaskFilter) mask(s string) string {
 		if err != nil {
 			host = value // assume whole thing was IP address
 		}
+		// an IPv6 address may carry a zone (e.g. a link-local
+		// peer in RemoteAddr); it is not part of the address
+		host, _, _ = strings.Cut(host, "%")
 		ipAddr := net.ParseIP(host)
 		if ipAddr == nil {
 			output += value + ", "
